@@ -121,6 +121,9 @@ type lbConcStats struct {
 	Plans      int      `json:"plans"`
 	Histories  int      `json:"histories"`
 	Violations []string `json:"violations"`
+	// concurrent planners over a fixed membership: violations of Balance / ConsecutiveStarts
+	Unbalanced  []string `json:"unbalanced"`
+	BalanceRuns int      `json:"balance_runs"`
 }
 
 // lbConcurrent applies each behaviour's membership events from one goroutine while planner
@@ -247,12 +250,63 @@ func lbConcurrent(behs [][]lbStep, planners, plansPer int) *lbConcStats {
 	return st
 }
 
+// lbBalance: LoadBalancer.tla's NewPlan is one atomic step (the counter is read and advanced at once), so any number
+// of plans taken concurrently over a fixed membership start at consecutive counter values: with n hosts and P plans
+// the first choices are spread as evenly as P allows. Returns a description of the violation or "".
+func lbBalance(hosts, planners, plansPer int) string {
+	lb := proxycore.NewRoundRobinLoadBalancer()
+	hs := make([]*proxycore.Host, 0, hosts)
+	for i := 1; i <= hosts; i++ {
+		hs = append(hs, lbHost(fmt.Sprintf("h%d", i)))
+	}
+	lb.OnEvent(&proxycore.BootstrapEvent{Hosts: hs})
+	counts := make([]map[string]int, planners)
+	var wg sync.WaitGroup
+	start := make(chan struct{})
+	for g := 0; g < planners; g++ {
+		counts[g] = map[string]int{}
+		wg.Add(1)
+		go func(g int) {
+			defer wg.Done()
+			<-start
+			for k := 0; k < plansPer; k++ {
+				if h := lb.NewQueryPlan().Next(); h != nil {
+					counts[g][h.Key()]++
+				}
+			}
+		}(g)
+	}
+	close(start)
+	wg.Wait()
+	total := map[string]int{}
+	for _, c := range counts {
+		for k, v := range c {
+			total[k] += v
+		}
+	}
+	min, max := -1, 0
+	for _, h := range hs {
+		v := total[h.Key()]
+		if min < 0 || v < min {
+			min = v
+		}
+		if v > max {
+			max = v
+		}
+	}
+	if max-min > 1 {
+		return fmt.Sprintf("%d plans taken concurrently by %d goroutines over %d hosts: first choices %v differ by %d (at most 1 allowed)", planners*plansPer, planners, hosts, total, max-min)
+	}
+	return ""
+}
+
 func init() {
 	register("lb", func(args []string) error {
 		fs := flag.NewFlagSet("lb", flag.ExitOnError)
 		in := fs.String("in", "", "behaviours (JSON lines)")
 		out := fs.String("out", "-", "result file")
 		conc := fs.Int("concurrent", 0, "number of behaviours to replay concurrently (0 = none)")
+		bal := fs.Bool("balance", false, "take plans concurrently over a fixed membership and check the spread of first choices")
 		_ = fs.Parse(args)
 		res := &lbResult{}
 		presetSet := map[uint64]bool{}
@@ -296,6 +350,19 @@ func init() {
 		}
 		if len(concBehs) > 0 {
 			res.Concurrent = lbConcurrent(concBehs, 6, 200)
+		}
+		if *bal {
+			if res.Concurrent == nil {
+				res.Concurrent = &lbConcStats{}
+			}
+			for _, n := range []int{2, 3, 5} {
+				for rep := 0; rep < 3; rep++ {
+					if v := lbBalance(n, 8, 20000); v != "" && len(res.Concurrent.Unbalanced) < 20 {
+						res.Concurrent.Unbalanced = append(res.Concurrent.Unbalanced, v)
+					}
+				}
+				res.Concurrent.BalanceRuns += 3
+			}
 		}
 		return writeJSON(*out, res)
 	})
